@@ -1,3 +1,4 @@
 pub mod bigu;
 pub mod poly;
 pub mod ser;
+pub mod galois;
